@@ -1,5 +1,6 @@
 //! Kani harness crate for grass_compiler (see /verif/DESIGN.md).
 #![allow(unused, clippy::all)]
+#![cfg_attr(kani, feature(allocator_api))]
 
 extern crate alloc;
 pub mod util;
